@@ -116,15 +116,15 @@ Lemma emit_with_args_frame : forall c st l sl args st', emit_with_args c st l sl
 Proof.
   intros c st l sl args st' E. unfold emit_with_args in E. destruct sl.
   - inversion E; subst. repeat split.
-  - destruct (existsb arg_crashes args); [discriminate|]. destruct (logger_enabled c l); [discriminate|].
+  - destruct (logger_enabled c l); [discriminate|].
     inversion E; subst. repeat split.
-  - destruct (existsb arg_crashes args); [discriminate|]. destruct (logger_enabled c l); inversion E; subst; repeat split.
+  - destruct (logger_enabled c l); inversion E; subst; repeat split.
 Qed.
 Lemma emit_variadic_frame : forall c st t l args st', emit_variadic c st t l args = Ok st' ->
   s_nodes st' = s_nodes st /\ s_stks st' = s_stks st /\ s_toks st' = s_toks st.
 Proof.
   intros c st t l args st' E. unfold emit_variadic in E.
-  destruct (emit_with_args c st l _ args) as [s1| |] eqn:EW; try discriminate. inversion E; subst.
+  destruct (emit_with_args c st l _ args) as [s1|] eqn:EW; try discriminate. inversion E; subst.
   apply emit_with_args_frame in EW. exact EW.
 Qed.
 
@@ -134,15 +134,14 @@ Proof.
   intros c st o st' N E. destruct o; try discriminate N; cbn [lstep] in E.
   - destruct (Nat.ltb t nthreads && Nat.ltb l (length (c_loggers c))); [|discriminate]. inversion E; subst. repeat split.
   - destruct (negb (arg_ok (s_mem st) a)); [discriminate|].
-    destruct (nth_error (s_slots st) r) as [[| |ch]|]; try discriminate; destruct (arg_crashes a); try discriminate;
-      inversion E; subst; repeat split.
+    destruct (nth_error (s_slots st) r) as [[| |ch]|]; try discriminate; inversion E; subst; repeat split.
   - destruct (negb _); [discriminate|]. destruct (nth_error (s_slots st) r) as [sl|]; [|discriminate].
     destruct (negb (logger_enabled c l)); [inversion E; subst; repeat split|].
     destruct sl; try discriminate; inversion E; subst; repeat split.
   - destruct (Nat.ltb t nthreads && Nat.ltb l (length (c_loggers c))); [|discriminate]. inversion E; subst. repeat split.
   - destruct (negb _); [discriminate|]. eapply emit_variadic_frame; eassumption.
   - destruct (negb _); [discriminate|]. destruct (nth_error (s_slots st) r) as [sl|]; [|discriminate].
-    destruct (emit_with_args c st l sl args) as [s1| |] eqn:EW; try discriminate. inversion E; subst.
+    destruct (emit_with_args c st l sl args) as [s1|] eqn:EW; try discriminate. inversion E; subst.
     apply emit_with_args_frame in EW. exact EW.
   - destruct (log_args form sev id name msg kvs) as [args|]; [|discriminate].
     destruct (negb _); [discriminate|]. eapply emit_variadic_frame; eassumption.
@@ -187,7 +186,7 @@ Qed.
 Theorem run_CInv : forall c ops st st', CInv st -> lrun c st ops = Ok st' -> CInv st'.
 Proof.
   induction ops as [|o ops IH]; intros st st' H E; cbn [lrun] in E; [inversion E; subst; assumption|].
-  destruct (lstep c st o) as [s1| |] eqn:S; try discriminate. eapply IH; [eapply step_CInv; eassumption | exact E].
+  destruct (lstep c st o) as [s1|] eqn:S; try discriminate. eapply IH; [eapply step_CInv; eassumption | exact E].
 Qed.
 
 (* ------------------------------------------------------------------ the named facts *)
